@@ -370,3 +370,19 @@ Corollary validate_safe_b c : validate_command cfg c = VOk -> safe_b c = true.
 Proof. intro H. apply safe_b_iff, validate_sound, H. Qed.
 
 End Sound.
+
+(* Every action of an UPDATE's action list is guarded, wherever it stands in the list and
+   however often its kind is repeated. *)
+Lemma every_action_guarded cfg (OK : cfg_ok cfg) ex cs u a k :
+  validate_command cfg (CKml ex cs) = VOk -> In (Update u) cs -> In a (up_actions u) -> TargetTyped u k ->
+  (forall f, In f (action_written a) -> ~ In f spec_engine_owned) /\
+  (forall asg f, a = USetFields asg -> In f (keys asg) -> ~ In f (spec_payload k)) /\
+  (k <> KConcept -> ~ is_structural_action a).
+Proof.
+  intros HV Hin Ha Ht. apply (validate_sound cfg OK) in HV. destruct HV as [H1 _].
+  destruct (H1 _ Hin) as [Hw [_ HU]]. simpl in HU. destruct (HU k Ht) as [P S].
+  split; [|split].
+  - intros f Hf. apply Hw. simpl. apply in_flat_map. exists a. auto.
+  - intros asg f -> Hf. apply P. unfold set_fields_keys. apply in_flat_map. exists (USetFields asg). auto.
+  - intros Hne. apply (S Hne a Ha).
+Qed.
